@@ -547,8 +547,17 @@ def r7(ctx):
     ctx.floor(R, 'AcceptDraw push sites', n, 1)
 
 
+def r9(ctx):
+    """R9 LEGAL-IS-MEMBERSHIP (= C01.R1): the legality gate of make_move is membership in the generated move set with
+    equality over all three components of the move."""
+    from . import c01
+    sub = Sub(ctx, {'C01.R1': 'C10.R9'})
+    c01.r1(sub)
+
+
 def run(ctx):
     _CTX[0] = ctx
+    r9(ctx)
     r12(ctx)
     r3(ctx)
     r4(ctx)
